@@ -16,7 +16,7 @@ template <typename T> MV ofT(DataType t, const T &x) { MV m; m.t = t; memcpy(&m.
 MV ofS(const std::string &s) { MV m; m.t = DataType::String; m.s = s; return m; }
 
 struct H {
-    Ctx &c; Rng &r; File f; Block b; DataFrame df; std::string path; std::vector<Column> cols; std::vector<std::vector<MV>> tab; uint64_t ord = 1;
+    Ctx &c; Rng &r; File f; Block b; DataFrame df, df2; bool two = false; std::string path; std::vector<Column> cols; std::vector<std::vector<MV>> tab; uint64_t ord = 1;
     H(Ctx &cx) : c(cx), r(cx.rng) {}
     Variant gen(DataType t) {
         uint64_t o = ord++; bool ex = r.chance(0.08);
@@ -32,9 +32,12 @@ struct H {
     }
     std::string K(const std::string &w) { return "C15/" + w; }
     size_t nrows() const { return tab.size(); }
+    // two independently obtained handles of the frame take turns: what one wrote (rows, cells) the other must read
+    void flip() { if (df2 && r.chance(0.5)) { std::swap(df, df2); c.count("handle_switches"); } }
 
     // ---- read paths
     void check_row(size_t row, const char *when) {
+        flip();
         c.op("readRow | row=" + str(row));
         try { std::vector<Variant> v = df.readRow(row); bool ok = v.size() == cols.size(); std::string d; for (size_t j = 0; ok && j < cols.size(); j++) if (of(v[j]) != tab[row][j]) { ok = false; d = "column " + str(j) + " (" + dtname(cols[j].dtype) + ") got " + show(of(v[j])) + " expected " + show(tab[row][j]); }
             c.check(ok, K("readRow/") + when, [&] { return "row " + str(row) + " of " + str(nrows()) + ": " + (d.empty() ? "wrong number of values " + str(v.size()) : d); }); }
@@ -42,6 +45,7 @@ struct H {
         c.count("cells_compared", (long)cols.size());
     }
     void check_cells(size_t row, const char *when) {
+        flip();
         try {
             size_t j = r.u(cols.size());
             c.op("readCell | row=" + str(row) + " col=" + str(j));
@@ -76,9 +80,11 @@ struct H {
         catch (std::exception &e) { c.check(false, K("readColumn-exception"), std::string("readColumn threw: ") + e.what() + " (" + when + ")"); }
     }
     void check_column(size_t j, const char *when) {
+        flip();
         switch (cols[j].dtype) { case DataType::Int32: check_column_T<int32_t>(j, when); break; case DataType::UInt32: check_column_T<uint32_t>(j, when); break; case DataType::Int64: check_column_T<int64_t>(j, when); break; case DataType::UInt64: check_column_T<uint64_t>(j, when); break; case DataType::Double: check_column_T<double>(j, when); break; case DataType::String: check_column_S(j, when); break; default: break; }
     }
     void check_schema(const char *when) {
+        flip();
         try { std::vector<Column> cs = df.columns(); bool ok = cs.size() == cols.size(); for (size_t j = 0; ok && j < cs.size(); j++) ok = cs[j].name == cols[j].name && cs[j].unit == cols[j].unit && cs[j].dtype == cols[j].dtype && df.colIndex(cols[j].name) == j && df.colName((unsigned)j) == cols[j].name;
             c.check(ok, K("schema"), std::string("column schema changed (") + when + ")"); c.check(df.rows() == nrows(), K("rows"), [&] { return "rows() = " + str(df.rows()) + " model " + str(nrows()) + " (" + when + ")"; }); }
         catch (std::exception &e) { c.check(false, K("schema-exception"), e.what()); }
@@ -102,6 +108,7 @@ struct H {
     }
 
     void op() {
+        flip();
         int k = (int)r.weighted({3, nrows() ? 5 : 0, nrows() ? 5 : 0, nrows() ? 4 : 0, nrows() ? 4 : 0, 1});
         try {
             switch (k) {
@@ -115,7 +122,7 @@ struct H {
             case 3: { size_t row = r.u(nrows()); std::vector<Cell> cells; std::vector<size_t> idx; size_t n = 1 + r.u(cols.size()); for (size_t q = 0; q < n; q++) { size_t j = r.u(cols.size()); if (std::find(idx.begin(), idx.end(), j) != idx.end()) continue; idx.push_back(j); Variant v = gen(cols[j].dtype); if (r.chance(0.5)) cells.push_back(Cell(cols[j].name, v)); else cells.push_back(Cell((unsigned)j, v)); tab[row][j] = of(v); }
                 c.op("writeCells | row=" + str(row) + " n=" + str(cells.size())); df.writeCells(row, cells); check_row(row, "after writeCells"); check_cells(row, "after writeCells"); break; }
             case 4: write_column(r.u(cols.size())); break;
-            case 5: { c.op("close+reopen"); std::string n = df.name(); df = DataFrame(); b = nix::none; f.close(); f = File::open(path, r.chance(0.5) ? FileMode::ReadWrite : FileMode::ReadOnly); b = f.getBlock("b"); df = b.getDataFrame(n); check_all("after reopen"); if (f.fileMode() == FileMode::ReadOnly) { df = DataFrame(); b = nix::none; f.close(); f = File::open(path, FileMode::ReadWrite); b = f.getBlock("b"); df = b.getDataFrame(n); } break; }
+            case 5: { c.op("close+reopen"); std::string n = df.name(); df = DataFrame(); df2 = DataFrame(); b = nix::none; f.close(); f = File::open(path, r.chance(0.5) ? FileMode::ReadWrite : FileMode::ReadOnly); b = f.getBlock("b"); df = b.getDataFrame(n); if (two) df2 = b.getDataFrame(n); check_all("after reopen"); if (f.fileMode() == FileMode::ReadOnly) { df = DataFrame(); df2 = DataFrame(); b = nix::none; f.close(); f = File::open(path, FileMode::ReadWrite); b = f.getBlock("b"); df = b.getDataFrame(n); if (two) df2 = b.getDataFrame(n); } break; }
             }
         } catch (std::exception &e) { c.check(false, K("legal-op-threw/op") + str(k), std::string("valid operation threw: ") + e.what()); }
         c.fp(str(k));
@@ -123,14 +130,22 @@ struct H {
     void run() {
         path = c.path("c15.nix"); f = File::open(path, FileMode::Overwrite, "hdf5", r.chance(0.5) ? Compression::Auto : Compression::None); b = f.createBlock("b", "t");
         size_t nc = 1 + r.u(8); static const char *units[] = {"", "mV", "s", "Hz"};
+        // column names: plain, or (40% of the frames) drawn in random order from a pool of names that are prefixes / extensions / case variants of
+        // each other, contain blanks, UTF-8, digits only, or are long - a column is identified by its exact name
+        if (r.chance(0.4)) {
+            std::vector<std::string> pool = {"time_ms", "time", "tim", "t", "time ", "Time", "time_ms_raw", "0", "1", "00", "value", "val", "value.x", "v", "\xc3\xa4", "\xc3\xa4\xc3\xa4", "a b", "a", "ab", std::string(200, 'n'), std::string(200, 'n') + "x", "name", "unit", "dtype"};
+            for (size_t j = 0; j < nc; j++) { size_t q = r.u(pool.size()); cols.push_back({pool[q], r.pick(units), r.pick(TYPES)}); pool.erase(pool.begin() + (long)q); }
+            c.count("prefix_name_schemas");
+        } else
         for (size_t j = 0; j < nc; j++) cols.push_back({"col" + str(j) + (r.chance(0.2) ? " \xc3\xa4" : ""), r.pick(units), r.pick(TYPES)});
         c.op("createDataFrame | columns=" + str(nc)); for (auto &cd : cols) c.fp(dtname(cd.dtype));
         df = b.createDataFrame("frame", "t", cols, r.chance(0.5) ? Compression::Auto : Compression::DeflateNormal);
+        two = r.chance(0.6); if (two) df2 = b.getDataFrame("frame");
         check_schema("fresh");
         int n = (int)r.range(12, 35);
         for (int i = 0; i < n; i++) { op(); if (i % 5 == 4) check_all("periodic"); }
         check_all("final");
-        c.nontrivial = c.checks > 20; df = DataFrame(); b = nix::none; f.close();
+        c.nontrivial = c.checks > 20; df = DataFrame(); df2 = DataFrame(); b = nix::none; f.close();
     }
 };
 void run_case(Ctx &c) { H h(c); h.run(); }
